@@ -27,6 +27,43 @@ ToCentVoicing(ref0, est0) ==
       B(b) == IF b THEN <<1, 1>> ELSE <<0, 1>>
   IN  [rv |-> [k \in 1..Len(ref.t) |-> B(ref.v[k])], rc |-> [k \in 1..Len(ref.t) |-> R(ref.c[k])],
        ev |-> [k \in 1..Len(ref.t) |-> B(e2.v[k])], ec |-> e2.c]
+(* ---- general form: explicit (possibly continuous) voicing on both sides, resampling kinds, constant hop ---- *)
+(* A weighted series is [t, c, w]: w = voicing / reward as rationals in [0,1] AS GIVEN by the caller;            *)
+(* freq_to_voicing forces it to 0 on frames without pitch (FV).  kind "linear": as above, and a NON-binary         *)
+(* voicing is interpolated linearly too (a binary one is taken from the frame in force); kind "zero": pitch and    *)
+(* voicing of the frame in force, no holding; kind "nearest": pitch and voicing of the nearest frame, the EARLIER   *)
+(* one on a tie.  hop = 0: the estimate is resampled onto the reference's times; hop > 0: both sides are resampled *)
+(* onto 0, hop, 2 hop, ... up to their own last time.  Finally the estimate is cut / zero-padded to the reference's *)
+(* length.  A series already on the target times is returned untouched.                                            *)
+FV(s) == [s EXCEPT !.w = [k \in 1..Len(s.t) |-> IF s.c[k] = 0 THEN <<0, 1>> ELSE s.w[k]]]
+PadW(s) == IF s.t[1] > 0 THEN [t |-> <<0>> \o s.t, c |-> <<s.c[1]>> \o s.c, w |-> <<s.w[1]>> \o s.w] ELSE s
+ExtendW(s, tmax) == IF tmax > s.t[Len(s.t)] THEN [t |-> Append(s.t, tmax), c |-> Append(s.c, 0), w |-> Append(s.w, <<0, 1>>)] ELSE s
+IsBinaryW(w) == \A k \in 1..Len(w) : w[k][1] = 0 \/ w[k][1] = w[k][2]
+NearestIdx(s, x) == LET k == InForce(s, x) IN
+  IF k = Len(s.t) THEN k ELSE IF x - s.t[k] <= s.t[k + 1] - x THEN k ELSE k + 1
+CentsAt(s, x, kind) ==
+  IF kind = "zero" THEN R(s.c[InForce(s, x)])
+  ELSE IF kind = "nearest" THEN R(s.c[NearestIdx(s, x)])
+  ELSE IF s.c[InForce(s, x)] = 0 THEN <<0, 1>> ELSE LinAt(s, x)
+VoicAt(s, x, kind) ==
+  LET k == InForce(s, x) IN
+  IF kind = "nearest" THEN s.w[NearestIdx(s, x)]
+  ELSE IF kind = "linear" /\ ~IsBinaryW(s.w) /\ s.t[k] # x
+       THEN RAdd(s.w[k], RMul(RSub(s.w[k + 1], s.w[k]), Norm(x - s.t[k], s.t[k + 1] - s.t[k])))
+  ELSE s.w[k]
+ResampleK(s0, newt, kind) ==
+  IF s0.t = newt THEN [c |-> [k \in 1..Len(newt) |-> R(s0.c[k])], w |-> s0.w]
+  ELSE LET s == ExtendW(s0, newt[Len(newt)]) IN
+       [c |-> [k \in 1..Len(newt) |-> CentsAt(s, newt[k], kind)], w |-> [k \in 1..Len(newt) |-> VoicAt(s, newt[k], kind)]]
+HopBase(h, tmax) == [k \in 1..(tmax \div h + 1) |-> h * (k - 1)]
+ToCentVoicingK(ref0, est0, hop, kind) ==
+  LET ref == FV(PadW(ref0))  est == FV(PadW(est0))
+      r2 == IF hop = 0 THEN [c |-> [k \in 1..Len(ref.t) |-> R(ref.c[k])], w |-> ref.w]
+            ELSE ResampleK(ref, HopBase(hop, ref.t[Len(ref.t)]), kind)
+      e2 == IF hop = 0 THEN ResampleK(est, ref.t, kind) ELSE ResampleK(est, HopBase(hop, est.t[Len(est.t)]), kind)
+      n == Len(r2.c)
+      Cut(q) == [k \in 1..n |-> IF k <= Len(q) THEN q[k] ELSE <<0, 1>>]
+  IN  [rv |-> r2.w, rc |-> r2.c, ev |-> Cut(e2.w), ec |-> Cut(e2.c)]
 (* the measures on rational cents *)
 RFloor(x) == x[1] \div x[2]
 RChroma(d) == RAbs(RSub(d, R(1200 * RFloor(RAdd(RDiv(d, R(1200)), <<1, 2>>)))))
